@@ -447,3 +447,50 @@ mutant("rb-sub-swapped", [(E, "            BinaryOp::Sub => a.checked_sub(b),", 
        [("C06", "R06.1")], base=RB)
 mutant("rb-overflow-default", [(E, "        None => Err(new_int_overflow(op, op_loc, a, b)),", "        None => Ok(Value::Int(i64::MAX)),")],
        [("C06", "R06.1")], base=RB, note="binop refactor + saturate on overflow")
+
+RS = "refactors/stmt/patch.diff"
+mutant("rs-while-cond-hoisted",
+       [(E, "    loop {\n        let b = eval_expr_to_bool(context, scopes, \"condition\", cond)\n            .context(EvalWhileConditionFailed)?;\n\n        if !b {",
+            "    let b = eval_expr_to_bool(context, scopes, \"condition\", cond)\n        .context(EvalWhileConditionFailed)?;\n    loop {\n        if !b {")],
+       [("C07", "R07.6")], base=RS, note="stmt refactor + while condition evaluated once")
+mutant("rs-while-return-swallowed",
+       [(E, "            .context(EvalWhileStatementsFailed)?;\n\n        match escape {\n            Escape::None => {},\n            Escape::Break{..} => break,\n            Escape::Continue{..} => continue,\n            Escape::Return{..} => return Ok(escape),",
+            "            .context(EvalWhileStatementsFailed)?;\n\n        match escape {\n            Escape::None => {},\n            Escape::Break{..} => break,\n            Escape::Continue{..} => continue,\n            Escape::Return{..} => break,")],
+       [("C07", "R07.2")], base=RS, note="stmt refactor + return inside while treated as break")
+
+RC = "refactors/call/patch.diff"
+mutant("rc-break-falls-to-null",
+       [(E, "        Escape::Break{loc: (line, col)} =>\n            Err(Error::AtLoc{\n                source: Box::new(Error::BreakOutsideLoop),\n                line,\n                col,\n            }),",
+            "        Escape::Break{..} =>\n            Ok(value::new_null()),")],
+       [("C07", "R07.4")], base=RC, note="call refactor + break escaping a function body yields null")
+mutant("rc-this-always-bound",
+       [(E, "    if let Some(this) = this_source {\n        // TODO Consider how to avoid creating a new AST variable node here.\n        bindings.push((\n            (RawExpr::Var{name: \"this\".to_string()}, (0, 0)),\n            value::new_val_ref_with_no_source(this),\n        ));\n    }",
+            "    bindings.push((\n        (RawExpr::Var{name: \"this\".to_string()}, (0, 0)),\n        value::new_val_ref_with_no_source(this_source.unwrap_or(Value::Null)),\n    ));")],
+       [("C14", "R14.3")], base=RC, note="call refactor + `this` bound unconditionally")
+
+REI = "refactors/exprindex/patch.diff"
+mutant("rei-empty-range-shortcut",
+       [(E, "    let end = maybe_end.unwrap_or(items.len());\n\n    items.get(start .. end).ok_or((start, end))",
+            "    let end = maybe_end.unwrap_or(items.len());\n\n    if start == end {\n        return Ok(&items[.. 0]);\n    }\n\n    items.get(start .. end).ok_or((start, end))")],
+       [("C11", "R11.2")], base=REI, note="exprindex refactor + `x[a:a]` answered before the bounds lookup")
+mutant("rei-end-defaults-to-start",
+       [(E, "    let end = maybe_end.unwrap_or(items.len());\n\n    items.get(start .. end)", "    let end = maybe_end.unwrap_or(start);\n\n    items.get(start .. end)")],
+       [("C11", "R11.5")], base=REI, note="exprindex refactor + omitted end defaults to start")
+
+RBD = "refactors/bind/patch.diff"
+mutant("rbd-index-bound-off-by-one",
+       [(B, "    if n >= lock_deref!(items).len() {\n        return at_loc(lhs_loc, Error::OutOfListBounds{index: n});",
+            "    if n > lock_deref!(items).len() {\n        return at_loc(lhs_loc, Error::OutOfListBounds{index: n});")],
+       [("C11", "R11.3")], base=RBD, note="bind refactor + index == len accepted")
+mutant("rbd-op-assign-under-list-lock",
+       [(B, "    let mut lhs_val = lock_deref!(items)[n].clone();\n\n    binary_operation_assign(&mut lhs_val, rhs, op)\n        .context(BinOpAssignListIndexFailed)?;\n\n    lock_deref!(items)[n] = lhs_val;",
+            "    binary_operation_assign(&mut lock_deref!(items)[n], rhs, op)\n        .context(BinOpAssignListIndexFailed)?;")],
+       [("C02", "R02.1")], base=RBD, note="bind refactor + `xs[0] += xs` under the list lock")
+
+RL = "refactors/lexnext/patch.diff"
+mutant("rl-drop-mod", [(L, "        Token::Mod |\n        Token::ModEquals |", "        Token::ModEquals |")],
+       [("C09", "R09.1")], base=RL, note="lexnext refactor + `%` no longer continues a statement")
+mutant("rl-start-of-input-significant", [(L, "        None => false,\n        Some(t) => !continues_statement(t),", "        None => true,\n        Some(t) => !continues_statement(t),")],
+       [("C09", "R09.1")], base=RL, note="lexnext refactor + leading newline emits a terminator")
+mutant("rl-polarity", [(L, "        Some(t) => !continues_statement(t),", "        Some(t) => continues_statement(t),")],
+       [("C09", "R09.1")], base=RL, note="lexnext refactor + inverted decision")
